@@ -34,6 +34,23 @@ func c09(c *core.Ctx) {
 	c.Rule("C09.mac", "symmetric signatures are compared with hmac.Equal; package uapolicy contains no bytes.Equal / bytes.Compare / reflect.DeepEqual / subtle-free == comparison of signature bytes", 1)
 	c.Rule("C09.sigerr", "every implementation of the signature-verification interface returns a non-nil error unless the library verification primitive it calls succeeded (no verify function returns nil on the failing edge)", 4)
 
+	// C09.bounds
+	{
+		c.Rule("C09.bounds", "the slice arithmetic of verifyAndDecrypt with the signature length and the padding size is in bounds for every chunk length: a chunk truncated to any length, or carrying any padding byte, yields a security error and never a panic", 6)
+		installMinLenHook(c)
+		installConsumedHook(c)
+		for _, site := range ssax.CheckBounds(ivad, byteSlice) {
+			if len(site.Issues) == 0 {
+				c.Ob("C09.bounds", fname(ivad)+"·"+site.Expr, pos(c, site.At), true, "in bounds")
+				continue
+			}
+			for _, is := range site.Issues {
+				c.Ob("C09.bounds", fname(ivad)+"·"+site.Expr+" ("+is.Kind+")", pos(c, site.At), false, "needs "+is.Need+", which no dominating comparison establishes: a truncated or over-padded chunk panics the receiver")
+			}
+		}
+		ssax.MinLenHook, ssax.ConsumedHook, ssax.MinCapHook = nil, nil, nil
+	}
+
 	// C09.verify
 	var vcall ssa.CallInstruction
 	for _, call := range ssax.CallsTo(ivad, verifySig) {
